@@ -84,7 +84,20 @@ def loaded_check(beh):
     except Exception as e:
         return (('loaded', 'exception', type(e).__name__, ''), 'save/load/execute raised %r' % (e,))
     bad = fm94.compare_decoded(beh, msg, what='loaded')
-    return (('loaded',) + tuple(bad[0][1:]), bad[1]) if bad else None
+    if bad:
+        return (('loaded',) + tuple(bad[0][1:]), bad[1])
+    # the SAME loaded template object executed by an Encoder, then by the Decoder again: a compiled template is data -
+    # it must not remember which coder ran it first
+    try:
+        from pybufrkit.encoder import Encoder
+        enc = Encoder(compiled_template_cache_max=1)
+        enc.compiled_template_manager.get_or_compile = lambda t, g: loaded
+        bad, _ = fm94.replay_encode(beh, encoder=enc, canonical=not beh['cmp'])
+        if bad is None:
+            bad = fm94.compare_decoded(beh, dec.process(data), what='loaded')
+    except Exception as e:
+        return (('loaded', 'shared-object', 'exception', type(e).__name__), 'one loaded template run by a Decoder, an Encoder and the Decoder again raised %r' % (e,))
+    return (('loaded', 'shared-object') + tuple(bad[0][1:3]), 'one loaded template run by a Decoder, then an Encoder, then the Decoder: ' + bad[1]) if bad else None
 
 
 def differs_when_compiled(beh):
